@@ -88,7 +88,26 @@ fn case(t0: &mut Tape, w: &Worker) -> CaseResult {
     // the reader -> analysis queue holds 100 batches of 100 packets: a quarter of the cases use many small (RDH-only)
     // packets so that the reader can run more than 10 000 packets ahead and block on the full queue
     let many_small = ot.chance(1, 4);
-    let mut stream = if many_small {
+    // the other extreme for a reader of stdout that goes away: an output of a few hundred bytes (it stays in the tool's
+    // own stdout buffer until the very end)
+    let tiny = kind == StopKind::CloseStdout && ot.chance(1, 4);
+    let mut stream = if tiny {
+        let tmpl = cs.stream.links[0].packets[0].rdh.clone();
+        let n = 2 + ot.below(6);
+        let packets = (0..n)
+            .map(|k| {
+                let mut r = tmpl.clone();
+                r.orbit = 0x0101_0101u32.wrapping_add(0x0101_0101 * (k as u32 / 2 % 5)); // no byte 0x0A
+                r.pages_counter = (k % 2) as u16;
+                r.stop_bit = (k % 2) as u8;
+                let mut p = Packet::new(r);
+                p.fix_sizes();
+                p
+            })
+            .collect();
+        out.labels.push("tiny_output".into());
+        Stream::single(Link { packets, barrel: Barrel::Inner, lane_ids: vec![] })
+    } else if many_small {
         let n_hbf = 6_000 + ot.below(w.tier.pick(6_000, 16_000));
         let mut packets = Vec::with_capacity(n_hbf * 2);
         let tmpl = cs.stream.links[0].packets[0].rdh.clone();
@@ -141,6 +160,7 @@ fn case(t0: &mut Tape, w: &Worker) -> CaseResult {
     let rdhs = rdhs_of(&stream, &lay);
     let mode = match kind {
         StopKind::ErrorCap => RunMode::CheckAllIts,
+        StopKind::CloseStdout if tiny => RunMode::WriteStdout,
         StopKind::CloseStdout => *ot.pick(&[RunMode::ViewRdh, RunMode::ViewFrames, RunMode::ViewData, RunMode::WriteStdout, RunMode::CheckStatsStdout]),
         _ => *ot.pick(&[RunMode::ViewRdh, RunMode::ViewFrames, RunMode::ViewData, RunMode::WriteStdout, RunMode::WriteFile, RunMode::CheckStatsStdout, RunMode::CheckAllIts]),
     };
@@ -509,7 +529,7 @@ pub fn build() -> Property {
         id: "C17",
         rule: "Fault schedules: stop kind {SIGINT, SIGTERM at a delay drawn from [0, 1.2 x measured run time]; stdout closed after N bytes (0, 1, 100, 4096, 65536, random); error cap -e N with errors on every third packet; \
                fatal framing error at a random packet} x mode {three views +-d, filtered write to stdout / file, check with statistics to stdout, check all its; a third of the view / check runs with a filter and an (ignored) -o destination} x source {file, pipe fed in 64 KiB chunks} x \
-               perturbation {off, random, slow validator, slow collector, slow writer} x input size 0.1..8 MB (conforming G_conf stream replicated with shifted orbits so that queues fill). \
+               perturbation {off, random, slow validator, slow collector, slow writer} x input size 0.1..8 MB (conforming G_conf stream replicated with shifted orbits so that queues fill; for a closed stdout also outputs of 128..448 bytes). \
                Oracle: the process exits by itself within the watchdog (all threads joined), no panic text, no terminating signal, exit in {0,1,n}; a partial -o file is a prefix of the expected filtered output made of whole packets. \
                Non-trivial = the stop provably landed mid-run (process alive when signalled / pipe closed before EOF of the baseline output / cap below the error count / fatal message seen). \
                Phase cap_then_signal: errors on stdin with a small error cap, the pipe held open for 1.8 s after the data, one SIGINT / SIGTERM after 0.4 .. 1.0 s: the run ends by itself with exit 0 or n (never the forced-exit path). Further phase (in-process, the statistics controller alone): message histories of up to 40 statistics messages (errors, counters, fatal) x error cap {none, 1..13, huge} x an outside stop request raised on the shared flag at any position; \
